@@ -48,12 +48,20 @@ func (c *Component) resolveTargetFromEvent(ev *events.SubscriberMutationEvent) *
 
 func (c *Component) resolveTerminateTarget(ev *events.SubscriberTerminateEvent) *SessionState {
 	if ev.Key != nil {
+		// The tuple only narrows the search. When the event names a session, a
+		// different session on the same tuple is not the target: a cross-protocol
+		// eviction is delivered to every component, including the one whose new
+		// session displaced the named one and now sits on that tuple.
 		var mac net.HardwareAddr = ev.Key.MAC[:]
 		if val, ok := c.sessions.Load(c.makeSessionKeyV4(mac, ev.Key.SVLAN, ev.Key.CVLAN)); ok {
-			return val.(*SessionState)
+			if sess := val.(*SessionState); ev.SessionID == "" || sess.SessionID == ev.SessionID {
+				return sess
+			}
 		}
 		if val, ok := c.sessions.Load(c.makeSessionKeyV6(mac, ev.Key.SVLAN, ev.Key.CVLAN)); ok {
-			return val.(*SessionState)
+			if sess := val.(*SessionState); ev.SessionID == "" || sess.SessionID == ev.SessionID {
+				return sess
+			}
 		}
 	}
 	if ev.SessionID != "" {
